@@ -2,16 +2,21 @@
 // decryption shares. Real prover writes the transcript, real verifier reads it; all coins and digests symbolic.
 #include "vfh_proto.hh"
 #include "BarnettSmartVTMF_dlog.hh"
+#include "mpz_spowm.hh"
 #ifndef H_P
 #define H_P 23
 #define H_Q 11
 #define H_G 2
 #define H_K 2
 #endif
+// The toy group is installed directly into the instance (first constructor with initialize_group = false, then the same
+// table set-up as the constructors do). Values read through a stream buffer are symbolic to the engine, and a symbolic
+// modulus costs orders of magnitude more; the stream constructor itself is covered by C06/C11.
 static BarnettSmartVTMF_dlog *mkvtmf() {
-  std::stringstream grp;
-  vfh_put(grp, H_P); vfh_put(grp, H_Q); vfh_put(grp, H_G); vfh_put(grp, H_K);
-  return new BarnettSmartVTMF_dlog(grp, 2, 2, false, true);
+  BarnettSmartVTMF_dlog *v = new BarnettSmartVTMF_dlog(2, 2, false, false);
+  mpz_set_ui(v->p, H_P); mpz_set_ui(v->q, H_Q); mpz_set_ui(v->g, H_G); mpz_set_ui(v->k, H_K);
+  tmcg_mpz_fpowm_precompute(v->fpowm_table_g, v->g, v->p, mpz_sizeinbase(v->q, 2L));
+  return v;
 }
 
 H_ENTRY(h_key_nizk) {
